@@ -197,6 +197,20 @@ def dirty_history(cfg_or_path, rng: Rng, n_dirty: int, n_later: int, dirty_episo
             used.step(a)
             log.append(("step", a))
     old_game = used.game
+    # how dirty is the last episode of the history: accepted requests per action type, nodes not ON, files no longer GOOD, ...
+    dirtied: Dict[str, int] = {}
+    try:
+        for ag in old_game.agents.values():
+            for it in ag.history:
+                if it.action != "do-nothing":
+                    k = f"history-action:{it.action}:{getattr(it.response, 'status', '?')}"
+                    dirtied[k] = dirtied.get(k, 0) + 1
+        st = json.dumps(_plain(old_game.get_sim_state()))
+        for label, pat in (("state:nodes-not-on", r'"operating_state": [0234]'), ("state:deleted-files", r'"deleted": true'),
+                           ("state:nonzero-num-access", r'"num_access": [1-9]'), ("state:file-health-not-good", r'"health_status": [2-9]')):
+            dirtied[label] = len(re.findall(pat, st))
+    except Exception:
+        pass
     later = [("reset", seed)] + [("step", a) for a in gen_actions(rng.fork("later"), n_later, space)]
     t_used = run_ops(used, later, Canon())
     fresh = make(cfg_or_path)
@@ -205,7 +219,7 @@ def dirty_history(cfg_or_path, rng: Rng, n_dirty: int, n_later: int, dirty_episo
     t_fresh = run_ops(fresh, later, Canon())
     diff = first_difference(t_used, t_fresh)
     return {"diff": diff, "used": used, "fresh": fresh, "old_game": old_game, "history": log, "later": later,
-            "digest": digest(t_used), "episodes": (used.episode_counter, fresh.episode_counter)}
+            "digest": digest(t_used), "episodes": (used.episode_counter, fresh.episode_counter), "dirtied": dirtied}
 
 
 # ------------------------------------------------------------------------------------------------ (b) interleaving
